@@ -204,5 +204,37 @@ def oracle(ctx):
             res.oracle_failures.append(dict(op='e2e --dry-run', input=dict(unit_type=ty, key=nm, section=secn or G.SEC[ty]),
                                             impl_output=dict(exit=rc, errors=errs[:3], printed='odd-unit' in so),
                                             oracle_expectation=f'exit status 1, an error line naming the key {nm!r} and the file odd-unit.{ty}, no service for it, the unit beside it generated'))
+    # the size of the file is a dimension: an undocumented key after 64 KiB, 1 MiB, 5 MiB of comments and documented keys — in the unit or in
+    # a drop-in — is found like one on the first line; and a large unit with documented keys only is accepted
+    big = [(ty, size, where) for ty in G.TYPES for size in (70_000, 1_100_000, 5_300_000) for where in ('unit', 'dropin', 'none')]
+    if not ctx.thorough:
+        big = ctx.rnd.sample(big, 12)
+
+    def run_big(c):
+        ty, size, where = c
+        base = e2e.fresh_dir()
+        os.makedirs(os.path.join(base, 'src', 'big-unit.' + ty + '.d'))
+        good = '[' + G.SEC[ty] + ']\n' + ''.join(b + '\n' for b in G.BASE[ty])
+        pad = ('# ' + 'x' * 97 + '\n') * (size // 100) + '[' + G.SEC[ty] + ']\n'
+        with open(os.path.join(base, 'src', 'big-unit.' + ty), 'w') as f:
+            f.write(good + (pad + 'NoSuchKey=1\n' if where == 'unit' else pad if where == 'none' else ''))
+        if where == 'dropin':
+            with open(os.path.join(base, 'src', 'big-unit.' + ty + '.d', '10-big.conf'), 'w') as f:
+                f.write(pad + 'NoSuchKey=1\n')
+        rc, so, se = e2e.run_binary(['--dry-run', '--no-kmsg-log', os.path.join(base, 'out')], os.path.join(base, 'src'), timeout=60)
+        shutil.rmtree(base, ignore_errors=True)
+        return rc, so, se
+    for (ty, size, where), (rc, so, se) in zip(big, e2e.pmap(run_big, big)):
+        res.oracle_evals += 1
+        errs = [l for l in se.split('\n') if 'ERROR' in l]
+        if where == 'none':
+            ok = rc == 0 and 'big-unit' in so
+            want = 'exit status 0 and a service (documented keys only)'
+        else:
+            ok = rc == 1 and 'big-unit' not in so and any('NoSuchKey' in l and 'big-unit.' + ty in l for l in errs)
+            want = 'exit status 1, an error line naming the key NoSuchKey and the file, no service'
+        if not ok:
+            res.oracle_failures.append(dict(op='e2e --dry-run', input=dict(unit_type=ty, bytes_before_the_key=size, key_in=where),
+                                            impl_output=dict(exit=rc, errors=[l[:300] for l in errs[:3]], printed='big-unit' in so), oracle_expectation=want))
     res.samples.append(dict(kind='oracle-case', unit=cs[0][1], expected_unknown_key=cs[0][2]))
     ctx.log(f'oracle: {res.oracle_evals} evaluations, {len(res.oracle_failures)} failures')
